@@ -15,10 +15,11 @@
     else the stored pair.  `Option (α × α)`, `none` being the blank.  Column headers differ between the two
     reports (`"vi limit (V)"` / `"vi  (V)"`): `limitHeader`.
   * `phases()`: `None` when no system phases are defined.  Otherwise per node the list `ph_names` (one row each):
-    `SLOSS` → `["N/A"]`; SOURCE / CONVERTER / LINREG / PSWITCH / PMUX → the system phases that occur in the
+    `SLOSS` and `RECTIFIER` → `["N/A"]` (always active); SOURCE / CONVERTER / LINREG / PSWITCH / PMUX → the system phases that occur in the
     component's configuration (system order), `["N/A"]` if there are none; LOAD → the same over the KEYS of its dict
-    (a LOAD that was given a list raises `AttributeError`: `'list' object has no attribute 'keys'`);
-    **RECTIFIER → no row at all** (the `if / elif` chain has no branch for it).  A load row shows, in the column of
+    (a LOAD that was given a list raises `AttributeError`: `'list' object has no attribute 'keys'`).
+    (Before /repo commit f863daa the `if / elif` chain had no branch for RECTIFIER and a Rectifier got no row.)
+    A load row shows, in the column of
     its kind (`pwr` / `rs` / `ii`, decided by which key `_params` has), the configured per-phase value, or the
     stored main parameter on an `"N/A"` row; every other cell is blank.  The Domain column follows the running
     `dname` / `ndomain` bookkeeping (domain of the first parent, a SOURCE is its own domain) and is only emitted
@@ -137,13 +138,12 @@ def activeNames (keys phaseNames : List String) : List String :=
 /-- `ph_names` of one node -/
 def phNames (ct : CType) (pc : PhaseConf α) (phaseNames : List String) : Except Err (List String) :=
   match ct with
-  | .SLOSS => pure ["N/A"]
+  | .SLOSS | .RECTIFIER => pure ["N/A"]             -- `if tname == "SLOSS" or tname == "RECTIFIER"`
   | .CONVERTER | .LINREG | .PSWITCH | .PMUX | .SOURCE => pure (activeNames pc.keys phaseNames)
   | .LOAD =>
     match pc with
     | .names _ => throw (.other "AttributeError")      -- `'list' object has no attribute 'keys'`
     | .table _ => pure (activeNames pc.keys phaseNames)
-  | .RECTIFIER => pure []                              -- no branch: a rectifier is not listed
 
 /-- `_params[k]` shown in a numeric cell -/
 def paramNum (c : Comp α) (k : String) : Option α := (c.params.lookup k).bind PV.num?
